@@ -906,6 +906,8 @@ class Interp:
                 if base is not None:
                     m = self.find_method(base, attr)
                     if m is not None:
+                        if 'property' in m.decorators():
+                            return self.call_function(m, [], {}, bound=obj.obj)
                         return FuncRef(m, bound=obj.obj)
             return Opaque(f'super().{attr}')
         if isinstance(obj, Opaque):
